@@ -181,6 +181,14 @@ func C05(c *core.Ctx) {
 			return []byte{}
 		case 1:
 			return []byte(fmt.Sprintf("host-%d.example", r.Intn(50)))
+		case 2:
+			// long values: digest inputs that span several hash blocks / exceed any fixed buffer
+			if r.Intn(4) == 0 {
+				b := make([]byte, []int{200, 500, 520, 1100, 2100}[r.Intn(5)])
+				r.Read(b)
+				return b
+			}
+			fallthrough
 		default:
 			b := gen.GenBytes(r, false)
 			if len(b) > 32 {
@@ -274,6 +282,9 @@ func C05(c *core.Ctx) {
 				}
 			}
 		}
+		// one client, two handshakes: the salt must be fresh, and a peer replaying everything it
+		// observed in the first handshake (HELO and PONG bytes) must be rejected in the second
+		c05SameClient(c, r, hc)
 		// server-side helpers accept exactly the digests of the formula
 		salt := gen.GenBytes(r, false)
 		ping, _ := protocol.NewPing(string(hc.chost), hc.key, salt, hc.nonce)
@@ -330,4 +341,105 @@ func C05(c *core.Ctx) {
 			c.Violation("judge-go", "c05-newpong-nil", "NewPong accepted a HELO without options", nil)
 		}
 	}
+}
+
+// c05SameClient: Connect, honest Handshake, Reconnect, Handshake against a peer that replays
+// the HELO and PONG of the first one.  crypto/rand is one continuing deterministic stream.
+func c05SameClient(c *core.Ctx, r *rand.Rand, hc hsCase) {
+	if len(hc.key) == 0 {
+		return
+	}
+	old := crand.Reader
+	defer func() { crand.Reader = old }()
+	seed := r.Int63()
+	stream := &detRand{rand.New(rand.NewSource(seed))}
+	mirror := rand.New(rand.NewSource(seed)) // same seed: predicts the bytes the client will draw
+	salt1 := make([]byte, 16)
+	salt2 := make([]byte, 16)
+	mirror.Read(salt1)
+	mirror.Read(salt2)
+	crand.Reader = stream
+	helo := mustMarshal(&protocol.Helo{MessageType: "HELO", Options: &protocol.HeloOpts{Nonce: hc.nonce, Auth: []byte{}, Keepalive: true}})
+	pong1 := mustMarshal(&protocol.Pong{MessageType: "PONG", AuthResult: true, ServerHostname: string(hc.shost), SharedKeyHexDigest: sha512hex(salt1, hc.shost, hc.nonce, hc.key)})
+	f := &fakes.Factory{}
+	f.Setup = func(cn *fakes.Conn) {
+		cn.Script = []fakes.ReadStep{{Data: helo}}
+		cn.OnWrite = func(idx int, b []byte) (int, error) {
+			if idx == 0 {
+				cn.Script = append(cn.Script, fakes.ReadStep{Data: pong1}) // the replayed PONG of handshake 1
+			}
+			return len(b), nil
+		}
+	}
+	cl := client.New(client.ConnectionOptions{Factory: f, AuthInfo: client.AuthInfo{SharedKey: hc.key}})
+	cl.Hostname = string(hc.chost)
+	if err := cl.Connect(); err != nil {
+		return
+	}
+	err1 := cl.Handshake()
+	tp1 := cl.TransportPhase()
+	_ = cl.Reconnect()
+	var err2 error
+	p := safely(func() { err2 = cl.Handshake() })
+	tp2 := cl.TransportPhase()
+	c.Eval()
+	c.Hist(fmt.Sprintf("same client: first ok=%v, replayed second ok=%v", err1 == nil, err2 == nil))
+	replay := map[string]interface{}{"key": hx(hc.key), "client_host": hx(hc.chost), "server_host": hx(hc.shost), "nonce": trunc(hx(hc.nonce), 80),
+		"sequence": "Connect; Handshake(honest); Reconnect; Handshake(peer replays the HELO and PONG bytes of the first handshake)"}
+	if p != nil {
+		c.Violation("panic", "c05-panic:same-client", "Handshake panicked in the second handshake of one client", replay)
+		return
+	}
+	if err1 != nil || !tp1 {
+		c.Violation("judge-go", "c05-honest-rejected", "an honest peer holding the key was rejected (first handshake of the client)", replay)
+		return
+	}
+	if tp2 || err2 == nil {
+		c.Violation("judge-go", "c05-accepted:replay-after-reconnect", "after Reconnect the client entered transport phase against a peer that replayed the PONG of the earlier handshake", replay)
+	}
+	// the two PINGs carry different (fresh) salts: the next 16 bytes of the random stream each
+	if len(f.Conns) == 2 {
+		p1, p2 := f.Conns[0].Accepted(), f.Conns[1].Accepted()
+		want1 := fmt.Sprintf("ping(host=%s,salt=%s,digest=%s,user=,pass=)", hx(hc.chost), hx(salt1), hx([]byte(sha512hex(salt1, hc.chost, hc.nonce, hc.key))))
+		want2 := fmt.Sprintf("ping(host=%s,salt=%s,digest=%s,user=,pass=)", hx(hc.chost), hx(salt2), hx([]byte(sha512hex(salt2, hc.chost, hc.nonce, hc.key))))
+		c.Judge("c05-ping-fresh", "judge_shape", []string{"ping", hx(p1), want1}, "first PING of the client: salt = next 16 random bytes")
+		if len(p2) > 0 {
+			c.Judge("c05-ping-fresh", "judge_shape", []string{"ping", hx(p2), want2}, "second PING of the same client (after Reconnect): a FRESH salt = the next 16 random bytes")
+		}
+	}
+}
+
+// runHandshakeRaw: Connect + Handshake against a peer that delivers inp1 before and inp2
+// after the first write; the client's salt is drawn from the deterministic stream of seed.
+func runHandshakeRaw(seed int64, hc hsCase, inp1, inp2 []byte) hsResult {
+	old := crand.Reader
+	defer func() { crand.Reader = old }()
+	crand.Reader = &detRand{rand.New(rand.NewSource(seed))}
+	res := hsResult{inp1: inp1, inp2: inp2}
+	f := &fakes.Factory{}
+	f.Setup = func(cn *fakes.Conn) {
+		cn.Script = []fakes.ReadStep{{Data: inp1}}
+		cn.OnWrite = func(idx int, b []byte) (int, error) {
+			if idx == 0 && len(inp2) > 0 {
+				cn.Script = append(cn.Script, fakes.ReadStep{Data: inp2})
+			}
+			return len(b), nil
+		}
+	}
+	cl := client.New(client.ConnectionOptions{Factory: f, AuthInfo: client.AuthInfo{SharedKey: hc.key}})
+	cl.Hostname = string(hc.chost)
+	if err := cl.Connect(); err != nil {
+		panic(err)
+	}
+	var err error
+	if p := safely(func() { err = cl.Handshake() }); p != nil {
+		res.class = "panic"
+	} else if err != nil {
+		res.class = "err"
+	} else {
+		res.class = "ok"
+	}
+	res.transport = cl.TransportPhase()
+	res.written = f.Conns[0].Accepted()
+	return res
 }
